@@ -343,9 +343,15 @@ func (p c16) Run(c *fw.Case) {
 		t, label = gen.Pick(r, typecorpus.WithStd), "corpus-std"
 	case kind == 2:
 		// TypeSchemas overrides, incl. an embedded override and a type that occurs several times
-		t = gen.Pick(r, []reflect.Type{reflect.TypeFor[typecorpus.WithCustom](), reflect.TypeFor[typecorpus.EmbCustomObj](), reflect.TypeFor[typecorpus.Repeats](), reflect.TypeFor[[]*typecorpus.WithCustom](), reflect.TypeFor[map[string]typecorpus.Repeats]()})
+		t = gen.Pick(r, []reflect.Type{reflect.TypeFor[typecorpus.WithCustom](), reflect.TypeFor[typecorpus.WithCustomPtr](), reflect.TypeFor[[]typecorpus.WithCustomPtr](), reflect.TypeFor[typecorpus.EmbCustomObj](), reflect.TypeFor[typecorpus.Repeats](), reflect.TypeFor[[]*typecorpus.WithCustom](), reflect.TypeFor[map[string]typecorpus.Repeats]()})
+		// the caller's slices may have spare capacity (append-built, or decoded from JSON)
+		customTypes := make([]string, 0, 2+r.IntN(4))
+		customTypes = append(customTypes, "integer", "string")
+		if r.IntN(2) == 0 {
+			customTypes = append(customTypes, "boolean")
+		}
 		opts = &jsonschema.ForOptions{TypeSchemas: map[reflect.Type]*jsonschema.Schema{
-			reflect.TypeFor[typecorpus.Custom]():    {Types: []string{"integer", "string"}, Description: "custom"},
+			reflect.TypeFor[typecorpus.Custom]():    {Types: customTypes, Description: "custom", Required: append(make([]string, 0, 4), "zz"), Enum: append(make([]any, 0, 4), 7.0, "seven", true)},
 			reflect.TypeFor[typecorpus.CustomObj](): {Type: "object", Properties: map[string]*jsonschema.Schema{"p": {Type: "integer"}, "q": {Type: "integer", AllOf: []*jsonschema.Schema{{Minimum: jsonschema.Ptr(1.0)}}}}},
 			reflect.TypeFor[typecorpus.Inner]():     {Type: "object", Properties: map[string]*jsonschema.Schema{"x": {Type: "integer"}}, AdditionalProperties: &jsonschema.Schema{}},
 		}}
@@ -368,6 +374,10 @@ func (p c16) Run(c *fw.Case) {
 		var err error
 		ok := c.CallChecked("ForType", map[string]any{"type": t.String(), "debug": mode}, func() { s, err = jsonschema.ForType(t, opts) })
 		return s, err, ok
+	}
+	var optsBefore string
+	if opts != nil {
+		optsBefore = snap.Of(opts.TypeSchemas)
 	}
 	s1, err, ok := call()
 	if !ok {
@@ -421,6 +431,10 @@ func (p c16) Run(c *fw.Case) {
 	var entryBefore string
 	if opts != nil {
 		entryBefore = snap.Of(opts.TypeSchemas)
+		if entryBefore != optsBefore {
+			c.Violation("ForType modified the caller's ForOptions.TypeSchemas", wit(map[string]any{"before": optsBefore, "after": entryBefore}))
+			return
+		}
 	}
 	// Resolve accepts the result (it is a tree)
 	if _, rerr, ok := resolveSchema(c, s1, string(b1)); !ok {
